@@ -113,6 +113,7 @@ type inst struct {
 type held struct {
 	done chan result
 	r    addReq
+	at   string // the backend call it is parked at: "replace" | "upload"
 }
 
 type result struct {
@@ -120,6 +121,7 @@ type result struct {
 	body    string
 	signers string
 	raw     string
+	nw      int // effective lock writes at the moment the answer was complete (what was on record when it was released)
 }
 
 type world struct {
@@ -135,6 +137,11 @@ type world struct {
 	recorded map[string][]rec
 	tmp      string
 	gt       []*tree
+	// release bookkeeping (mon_public / mon_oneview): what became readable outside the witness, and when
+	wrec     []wrec           // parsed view of st.writes, index-aligned
+	pend     []pubRec         // effective uploads not yet judged
+	released map[string][]rel // origin -> witness-cosigned checkpoints released so far (answers and bucket objects)
+	evs      []ev             // compact history of the requests of this world
 }
 
 type rec struct {
@@ -153,7 +160,7 @@ func lockKey(label string, pub ed25519.PublicKey, origin string) [32]byte {
 
 func newWorld(kr *keyring, mirror bool, tmp string, gt []*tree) *world {
 	w := &world{kr: kr, st: newStore(), insts: map[int]*inst{}, mirror: mirror, keyOf: map[[32]byte]string{},
-		heldReq: map[string]*held{}, recorded: map[string][]rec{}, tmp: tmp, gt: gt}
+		heldReq: map[string]*held{}, recorded: map[string][]rec{}, tmp: tmp, gt: gt, released: map[string][]rel{}}
 	w.st.cfgKey = lockKey("witness config\n", kr.wEd.Public().(ed25519.PublicKey), "")
 	m := 0
 	if mirror {
@@ -178,6 +185,7 @@ func (w *world) restart(i int) {
 	w.insts[i] = &inst{w: wt, p: p, h: wt.Handler()}
 	all, _ := wt.Logs()
 	emit("restart", []string{fmt.Sprint(i)}, fmt.Sprint(len(all)))
+	w.event("*", i, "restart (NewWitness on the same stores)", nil, "", "", "", "")
 }
 
 var listSeq int
@@ -205,6 +213,7 @@ func (w *world) addLog(i int, origin string, keyID int, fcreate, ffetch, fcfetch
 		return "fail"
 	}
 	emit("addlog", []string{fmt.Sprint(i), hx([]byte(origin)), fmt.Sprint(keyID), fcreate.String(), fb(ffetch), fb(fcfetch), fconf.String()}, res)
+	w.event(origin, i, fmt.Sprintf("addlog(PullLogList, log key %d)", keyID), nil, "", res, "", "")
 	return err == nil
 }
 
@@ -217,6 +226,9 @@ func (w *world) post(in *inst, path string, body []byte) result {
 	rec := httptest.NewRecorder()
 	in.h.ServeHTTP(rec, req)
 	r := result{status: fmt.Sprint(rec.Code), raw: rec.Body.String(), signers: "-"}
+	w.st.mu.Lock()
+	r.nw = len(w.st.writes)
+	w.st.mu.Unlock()
 	r.body = strings.TrimSuffix(r.raw, "\n")
 	if rec.Code == 200 {
 		r.body = "-"
@@ -298,8 +310,9 @@ func (w *world) drain() (string, string) {
 		w.monLockWrite(lw)
 	}
 	w.nWrites = len(w.st.writes)
-	for _, u := range w.st.ups[w.nUps:] {
+	for ui, u := range w.st.ups[w.nUps:] {
 		k, d, _ := strings.Cut(u, "\x00")
+		w.pend = append(w.pend, pubRec{k, []byte(d), w.st.upsAt[w.nUps+ui]})
 		c := w.canon([]byte(d))
 		o, _, _ := strings.Cut(c, ":")
 		ob, _ := hex.DecodeString(o)
@@ -373,6 +386,8 @@ func (w *world) addSeq(i int, r addReq, ffetch, freplace, fupload fault, mayHang
 	l, u := w.drain()
 	emit("add", []string{fmt.Sprint(i), "seq", fb(ffetch), fs(freplace), fs(fupload), r.hdr, r.note.abstract},
 		strings.Join([]string{res.status, res.body, res.signers, "lock=" + l, "up=" + u}, "|"))
+	w.event("?", i, "add", &r, "ff="+fb(ffetch)+" fr="+fs(freplace)+" fu="+fs(fupload), res.status, l, u)
+	w.monUploads()
 	w.monResponse(r, res)
 	return res
 }
@@ -389,7 +404,7 @@ func (w *world) addHold(i int, origin string, r addReq, ffetch fault) {
 	go func() { h.done <- w.post(in, "/add-checkpoint", r.body) }()
 	var res result
 	select {
-	case <-in.p.arrived:
+	case h.at = <-in.p.arrived:
 		res = result{status: "pending", body: "-", signers: "-"}
 		w.heldReq[fmt.Sprintf("%d/%s", i, origin)] = h
 	case res = <-h.done:
@@ -400,6 +415,8 @@ func (w *world) addHold(i int, origin string, r addReq, ffetch fault) {
 	l, u := w.drain()
 	emit("add", []string{fmt.Sprint(i), "hold", fb(ffetch), "-", "-", r.hdr, r.note.abstract},
 		strings.Join([]string{res.status, res.body, res.signers, "lock=" + l, "up=" + u}, "|"))
+	w.event(origin, i, "add(parks at its first backend call)", &r, "ff="+fb(ffetch), res.status+"@"+h.at, l, u)
+	w.monUploads()
 	if res.status != "pending" {
 		w.monResponse(r, res)
 	}
@@ -413,12 +430,14 @@ func (w *world) stepHeld(i int, origin string, f fault) {
 	if h == nil {
 		return
 	}
+	was := h.at
 	in.p.release <- f
 	var res result
 	select {
-	case <-in.p.arrived:
+	case h.at = <-in.p.arrived:
 		res = result{status: "pending", body: "-", signers: "-"}
 	case res = <-h.done:
+		h.at = ""
 		delete(w.heldReq, k)
 		in.p.mu.Lock()
 		in.p.hold = false
@@ -427,9 +446,19 @@ func (w *world) stepHeld(i int, origin string, f fault) {
 	l, u := w.drain()
 	emit("step", []string{fmt.Sprint(i), hx([]byte(origin)), fs(f)},
 		strings.Join([]string{res.status, res.body, res.signers, "lock=" + l, "up=" + u}, "|"))
+	w.event(origin, i, "step(the parked request performs its "+was+" with fault "+fs(f)+")", nil, "", res.status+"@"+h.at, l, u)
+	w.monUploads()
 	if res.status != "pending" {
 		w.monResponse(h.r, res)
 	}
+}
+
+// the gate the parked request of (inst, origin) waits at ("" = none parked)
+func (w *world) parkedAt(i int, origin string) string {
+	if h := w.heldReq[fmt.Sprintf("%d/%s", i, origin)]; h != nil {
+		return h.at
+	}
+	return ""
 }
 
 type batchItem struct {
@@ -470,9 +499,18 @@ func (w *world) addBatch(i int, items []batchItem) {
 	for k, it := range items {
 		emit("cadd", []string{fmt.Sprint(i), "seq", "ok", fs(it.freplace), fs(it.fupload), it.r.hdr, it.r.note.abstract},
 			strings.Join([]string{res[k].status, res[k].body, res[k].signers}, "|"))
-		w.monResponse(it.r, res[k])
+		w.event("?", i, fmt.Sprintf("concurrent(%d of %d)", k+1, len(items)), &items[k].r, "fr="+fs(it.freplace)+" fu="+fs(it.fupload), res[k].status, "", "")
 	}
 	emit("cend", []string{fmt.Sprint(i)}, "lock="+l+"|up="+u)
+	bo := "?"
+	if len(items) > 0 && items[0].r.note.spec.kind == "ckpt" {
+		bo = items[0].r.note.spec.origin
+	}
+	w.event(bo, i, "end of the concurrent batch", nil, "", "", l, u)
+	w.monUploads()
+	for k, it := range items {
+		w.monResponse(it.r, res[k])
+	}
 }
 
 type subReq struct {
